@@ -22,7 +22,9 @@
                (GnmiUpdate to an unknown name is an error without effect);
         tag 5  Query("*") is the union of the per-target queries; HasTarget,
                Query and Metadata agree on which names exist;
-        tag 6  subscribers: a running stream forwards, in order, exactly the
+        tag 6  subscribers (also those attached WITH the initial walk, with a
+               Cache.Remove executed between registration and walk): a running
+               stream forwards, in order, exactly the
                announced entries of its target (all, for "*"); a single-target
                stream ends with status OK right after the whole-target delete;
                an ended stream receives nothing; "*" streams are not ended;
@@ -206,19 +208,27 @@ Definition kp_reset (prev : list (string * tobs)) (o : mop) (ob : mobs) : list N
 Definition is_whole_target_delete (t : string) (n : notif) : bool :=
   String.eqb (feed_tgt n) t && is_nil (n_upd n) && is_target_delete n.
 
+Definition removed_ok (t : string) (ob : mobs) : bool :=
+  match assoc t (o_tgts ob) with
+  | Some a =>
+      negb (to_has a) && is_nil (match to_dump a with Some _ => [tt] | None => [] end) &&
+      is_nil (match to_meta a with Some _ => [tt] | None => [] end) &&
+      match o_feed ob with
+      | [n] => is_whole_target_delete t n
+      | _ => false
+      end
+  | None => false
+  end.
+
+Definition known_before (prev : list (string * tobs)) (T : string) : bool :=
+  if String.eqb T "*" then true
+  else match assoc T prev with Some b => to_has b | None => false end.
+
 Definition kp_remove (prev : list (string * tobs)) (o : mop) (ob : mobs) : bool :=
   match o with
-  | MRemove _ t =>
-      match assoc t (o_tgts ob) with
-      | Some a =>
-          negb (to_has a) && is_nil (match to_dump a with Some _ => [tt] | None => [] end) &&
-          is_nil (match to_meta a with Some _ => [tt] | None => [] end) &&
-          match o_feed ob with
-          | [n] => is_whole_target_delete t n
-          | _ => false
-          end
-      | None => false
-      end
+  | MRemove _ t => removed_ok t ob
+  | MSubWalk _ T (Some x) =>
+      if known_before prev T then removed_ok x ob else is_nil (o_feed ob)
   | MUpd _ n =>
       match n_prefix n with
       | None => rcls_eqb (o_res ob) ROther
@@ -274,6 +284,30 @@ Definition kp_subs (prev : list (string * tobs)) (ksubs : list ksub) (o : mop) (
           else is_nil (fst g) && sstat_eqb (snd g) SNotFound
       | _ => false
       end
+  | MSubWalk _ T _ =>
+      match skipn n (o_subs ob) with
+      | [g] =>
+          if known_before prev T then
+            let '(out, e) := stream_feed T (o_feed ob) in
+            if e then
+              (* the stream ends cleanly right after the whole-target delete *)
+              list_eqb sresp_eqb (fst g) out && sstat_eqb (snd g) SEndedOk
+            else
+              let k := List.length out in
+              let rest := skipn k (fst g) in
+              let walked := firstn (List.length rest - 1) rest in
+              let mine := if String.eqb T "*" then map snd (o_star ob)
+                          else match assoc T (o_tgts ob) with
+                               | Some a => match to_dump a with Some d => map snd d | None => [] end
+                               | None => []
+                               end in
+              sstat_eqb (snd g) SRunning &&
+              list_eqb sresp_eqb (firstn k (fst g)) out &&
+              match rev rest with SSync :: _ => true | _ => false end &&
+              bag_eqb sresp_eqb walked (map SUpd mine)
+          else is_nil (fst g) && sstat_eqb (snd g) SNotFound
+      | _ => false
+      end
   | _ => Nat.eqb (List.length (o_subs ob)) n
   end.
 
@@ -281,7 +315,8 @@ Definition ksubs_next (ksubs : list ksub) (o : mop) (ob : mobs) : list ksub :=
   let n := List.length ksubs in
   map (fun x => (fst (fst x), snd (snd x))) (combine ksubs (firstn n (o_subs ob))) ++
   match o with
-  | MSub T => match skipn n (o_subs ob) with g :: _ => [(T, snd g)] | [] => [(T, SEndedErr)] end
+  | MSub T | MSubWalk _ T _ =>
+      match skipn n (o_subs ob) with g :: _ => [(T, snd g)] | [] => [(T, SEndedErr)] end
   | _ => []
   end.
 
